@@ -589,7 +589,8 @@ impl<'a> Gen<'a> {
                     4 => self.rng.range(1, 100_000),
                     _ => 5,
                 };
-                Op::Block { set: self.rng.chance(1, 2), dh: self.rng.below(3), dt }
+                let abs_h = if self.rng.chance(1, 6) { Some(*self.rng.pick(&[0u64, 1, u64::MAX, 7])) } else { None };
+                Op::Block { set: self.rng.chance(1, 2), dh: self.rng.below(3), dt, abs_h }
             }
             7 => {
                 let v = if self.rng.chance(1, 5) { None } else { Some(format!("ext{}", self.uniq()).into_bytes()) };
@@ -712,7 +713,9 @@ fn gen_case(rng: &mut Rng, cfg: &Cfg) -> Case {
             *c = if i == 0 { 1 + g.rng.below(3) as u8 } else { 1 + g.rng.below(2) as u8 };
         }
     }
-    Case { prefix: g.rng.below(4) as u8, n_accounts, n_denoms, n_validators, init_balances, module_faults, unbonding_secs, module_cfg, ops }
+    let adv_rate = if cfg.property == "C08" || cfg.property == "C11" { 4 } else { 12 };
+    let adv_addr = g.rng.chance(1, adv_rate);
+    Case { prefix: g.rng.below(4) as u8, n_accounts, n_denoms, n_validators, init_balances, module_faults, unbonding_secs, module_cfg, adv_addr, ops }
 }
 
 // ------------------------------------------------------------------ minimisation
@@ -988,6 +991,11 @@ impl Engine for ChainSim {
         if case.prefix != 0 {
             let mut c = case.clone();
             c.prefix = 0;
+            out.push(c);
+        }
+        if case.adv_addr {
+            let mut c = case.clone();
+            c.adv_addr = false;
             out.push(c);
         }
         if case.module_cfg != [0; 4] {
